@@ -87,8 +87,10 @@ Definition h2_events (frames : list h2frame) (trailers : bool) : list h2ev :=
 
 Definition h2err_clean (e : h2err) : bool := match e with H2Clean => true | _ => false end.
 
-Definition h2_exchange (is_head : bool) (heads : list h2head) (frames : list h2frame)
-    (trailers : option (list mfield)) (m : mode) (sizes : list nat) : option mux_delivery :=
+(* [after]: what the peer does on the stream / connection once the response is complete
+   (RST_STREAM(NO_ERROR) to stop an upload, GOAWAY, closing the connection, ...) *)
+Definition h2_exchange_after (is_head : bool) (heads : list h2head) (frames : list h2frame)
+    (trailers : option (list mfield)) (after : list h2ev) (m : mode) (sizes : list nat) : option mux_delivery :=
   match h2_final heads 0 with
   | None => None
   | Some (code, hd) =>
@@ -99,7 +101,7 @@ Definition h2_exchange (is_head : bool) (heads : list h2head) (frames : list h2f
       let '(d, e) :=
         if is_head then ([], H2Clean)
         else h2_read clopt (hh_end hd)
-               (h2_events frames (match trailers with Some _ => true | None => false end)) in
+               (h2_events frames (match trailers with Some _ => true | None => false end) ++ after) in
       let rd := {| rd_rem := d; rd_end := if h2err_clean e then BEof else BFail |} in
       let tr := match trailers with
                 | Some tfs => if h2err_clean e && negb is_head && negb (hh_end hd)
@@ -109,6 +111,10 @@ Definition h2_exchange (is_head : bool) (heads : list h2head) (frames : list h2f
       Some {| m_code := code; m_header := hdr; m_cl := cl; m_trailer := tr;
               m_api := run_mode m code sizes rd |}
   end.
+
+Definition h2_exchange (is_head : bool) (heads : list h2head) (frames : list h2frame)
+    (trailers : option (list mfield)) (m : mode) (sizes : list nat) : option mux_delivery :=
+  h2_exchange_after is_head heads frames trailers [] m sizes.
 
 (* ------------------------------- HTTP/3 ------------------------------- *)
 
